@@ -195,6 +195,27 @@ def run_accessors(prog: Program):
     root = new_root(st0, 'RO', 'RO')
     ro_cls = prog.cls('RunningOrder')
     checked = []
+    # the subclasses inherit every accessor but read a different base tag (roReplace): same obligations
+    for sub in [c for c in prog.subclasses(ro_cls) if c.name != 'RunningOrder']:
+        st1 = base_state(eng)
+        root1 = new_root(st1, 'RO', 'RO')
+        for ro, st in make_object(eng, sub, root1, st1):
+            if isinstance(ro, Raise):
+                raise AnalysisError(f'{sub.name} constructor raises')
+            req = dict(st.mon.get('sym:rootreq') or {})
+            req[root1.sym] = (base_tag_literal(eng, sub),)
+            st.mon['sym:rootreq'] = req
+            st.frame.env['ro'] = ro
+            for fi in public_properties(sub):
+                if fi.name == 'dict':
+                    continue
+                eng.entry = f'{sub.name}.{fi.name}'
+                checked.append(eng.entry)
+                for v, s in eng.call_function(fi, [], {}, st.copy(), None, self_val=ro):
+                    if isinstance(v, Raise):
+                        eng.escape('NO-BUILTIN-ESCAPE', v, s, [], f'for a {sub.name} object')
+                        continue
+                    eng.record_value(eng.entry, v, s)
     for ro, st in make_object(eng, ro_cls, root, st0):
         if isinstance(ro, Raise):
             raise AnalysisError('RunningOrder constructor raises')
